@@ -6,7 +6,7 @@ import random
 import core
 
 PID = 'C11'
-MODULES = ['FFVerif.Proofs.C11']
+MODULES = ['FFVerif.Proofs.C11', 'FFVerif.Proofs.C11Chol', 'FFVerif.Proofs.C11Model']
 
 
 def fail(res, clause, case, out, sig=None):
@@ -416,11 +416,18 @@ def run(tier, seed):
     boundary_and_sampling(res, random.Random(seed + 2))
     fallback_search(res)
     res.traces = res.evaluations
+    # executable Lean model of the transformation (Model/Nataf.lean, Model/Chol.lean) against the implementation
+    import formmodel
+    formmodel.nataf_stream(res, random.Random(seed + 11), 60 if tier == 'quick' else 2500)
     res.disagreements_checked = res.evaluations
     res.trusted += ['theorems are about the exact maps with abstract marginals (cdf, ppf, pdf), standard normal cdf/pdf and a Cholesky factor; the '
                     'implementation is tied by tolerance checks: round trips 1e-8, Jacobian products 1e-8, finite differences 1e-4, '
                     'latent correlation 1e-5/1e-6, factorisation 1e-8, quadrature 1e-5..2e-3',
-                    'scipy.stats distributions, Gauss-Legendre quadrature, fsolve and Cholesky are external (modelled, not verified)']
+                    'Proofs/C11Model.lean + C11Chol.lean: theorems about the executable model (normal / lognormal marginals, Cholesky factor and triangular '
+                    'inverse computed by the model); the model is tied to the implementation by comparing L, L^-1, getU, getX and both returned matrices at '
+                    '1e-8..1e-11 and the closed-form latent correlation with rhoZ at 2e-6',
+                    'scipy.stats distributions, Gauss-Legendre quadrature and fsolve are external (modelled, not verified); np.linalg.cholesky / solve are '
+                    'compared with the verified model factorisation']
     return core.finish(res)
 
 
